@@ -47,9 +47,10 @@ NormMfd(M, D) == {m \in M : \E c \in D : c.fn = m.fn /\ c.mfu # ""}
 StateOf(e)  == [disk |-> {Core(c) : c \in SeqToSet(e.disk)}, mfd |-> SeqToSet(e.mfd), h |-> e.h]
 
 (* C02: every byte of a committed container and of its manifest stays as it  *)
-(* was, whatever the action -- except for the explicitly truncating 'w'      *)
+(* was, whatever the action -- except for the explicitly truncating 'w' and  *)
+(* the explicit delete_files of that record                                 *)
 FrozenViolated(pe, e) ==
-    LET truncating == e.op = "open" /\ e.a.mode = "w" /\ e.ok IN
+    LET truncating == (e.op = "open" /\ e.a.mode = "w" /\ e.ok) \/ (e.op = "delete_files" /\ e.ok) IN
     \/ \E c \in SeqToSet(pe.disk) :
           /\ c.hash # "" /\ c.parse
           /\ ~(truncating /\ c.fn[1] = e.a.rname)
@@ -67,7 +68,7 @@ RecordNames(D) == {c.fn[1] : c \in D}
 PayloadKey(D, rn) ==
     LET s == P!Sorted(P!Files(D, rn)) IN [j \in DOMAIN s |-> s[j].pd]
 
-ProtocolOps == {"open", "create_patch", "write", "commit", "discard", "close", "merge"}
+ProtocolOps == {"open", "create_patch", "write", "commit", "discard", "close", "merge", "delete_files", "open_older"}
 
 (* --- corruption probes (C04): one event = one (possibly corrupted) file set  *)
 (*     that the real class was asked to open read-only                         *)
@@ -113,6 +114,9 @@ Clauses(T, j, vm) ==
     \cup (IF e.h.open /\ ~e.h.wr /\ <<e.h.rname, PayloadKey(post.disk, e.h.rname)>> \in DOMAIN vm
              /\ vm[<<e.h.rname, PayloadKey(post.disk, e.h.rname)>>] # e.vw
           THEN {"view_function_of_payloads"} ELSE {})
+    \cup (IF e.op = "list_records" /\ SeqToSet(e.listed) # SeqToSet(e.all_records) THEN {"list_records_exact"} ELSE {})
+    \cup (IF e.op = "list_records" /\ \E rn \in SeqToSet(e.found) : SeqToSet(rn.files) # SeqToSet(rn.expected)
+          THEN {"find_files_exact"} ELSE {})
     \cup (IF e.op = "merge" /\ e.ok /\ e.merged_vw # e.vw THEN {"merged_view_eq_source_view"} ELSE {})
     \cup (IF e.op = "merge" /\ e.meta_before # e.meta_after THEN {"merge_leaves_source_object_unchanged"} ELSE {})
 
